@@ -157,7 +157,8 @@ package silence
 //@   ensures [unexpired-only] forall k string :: k in s.st && (!old(k in s.st) || s.st[k] != old(s.st[k])) ==> tsT(s.st[k].ExpiresAt) >= ret("nowUTC")
 //@   ensures [error-unchanged] result != nil ==> dom(s.st) == old(dom(s.st)) && vals(s.st) == old(vals(s.st)) && s.version == old(s.version)
 //@   ensures [indexed-once-per-added] count(").indexSilence") == counttrue1("state).merge")
-//@   at call broadcast assert [gossip-only-changes] ret("state).merge")
+//@   at call broadcast assert [gossip-only-changes] ret("state).merge") && arg0 == b
+//@   ensures [every-change-of-a-small-message-is-re-gossiped] result == nil ==> count("dynamic:field:broadcast") == (OversizedMessage(b) ? 0 : counttrue0("state).merge"))
 //@   at call ).indexSilence assert [index-the-added] ret1("state).merge")
 //@   at call reindexSilence assert [reindex-the-updated] ret("state).merge") && !ret1("state).merge") && arg1 == e.Silence
 //@   ensures [reindexed-once-per-update] count("reindexSilence") == counttrue0("state).merge") - counttrue1("state).merge")
@@ -170,6 +171,7 @@ package silence
 //@   loop 1 invariant forall k string :: k in st ==> fresh(st[k].Silence)
 //@   loop 1 invariant s.version >= old(s.version)
 //@   loop 1 invariant count(").indexSilence") == counttrue1("state).merge")
+//@   loop 1 invariant counttrue0("state).merge") >= 0 && count("dynamic:field:broadcast") == (OversizedMessage(b) ? 0 : counttrue0("state).merge"))
 //@   loop 1 invariant count("reindexSilence") == counttrue0("state).merge") - counttrue1("state).merge") && s.version == old(s.version) + counttrue0("state).merge")
 //@   assigns s.st[*], s.mi[*], s.vi, s.vi[*], s.version, silencepb.Silence.Comment, silencepb.Silence.CreatedBy, silencepb.Silence.Comments
 //@   noeffect broadcast
